@@ -192,6 +192,14 @@ Definition outside_unchanged (root : bytes) (before after : list sx) : bool :=
   | _, _ => false
   end.
 
+Definition reads_inside (f : fs) (sroot : bytes) (reads : list N) : bool :=
+  match resolve_ino ctx_init f sroot true with
+  | inr _ => true                        (* no source root: nothing is copied *)
+  | inl sr =>
+    let below := sr :: map (fun e => snd (fst e)) (tree_below 64 f sr []) in
+    forallb (fun i => negb (N.ltb i (f_next f)) || existsb (N.eqb i) below) reads
+  end.
+
 Definition copy_fuel : nat := 64.
 
 Definition run_1404 (input impl : sx) : sx :=
@@ -206,9 +214,40 @@ Definition run_1404 (input impl : sx) : sx :=
       let model := SL [SL rs; enc_snapshot (snapshot_from f 1); ms; SN code;
                        enc_snapshot (snapshot_from (s_fs s') 1); SL [SN di0; SN di1]; SL pt] in
       let rel := match droot with a :: r => if N.eqb a sep then r else droot | [] => [] end in
-      let ok := outside_unchanged rel sb sa && N.eqb di0 di1 && negb (N.eqb di0 0) && N.leb err 1 in
-      verdict model impl ok (SL [SN (if outside_unchanged rel sb sa then 0 else 1); SN di0; SN di1; SN err])
+      (* the read side (copy_reads_inside, also for overlapping roots): of the inodes that existed
+         before, the model's source-path calls name only srcRoot and what lies below it (no link followed) *)
+      let rd := reads_inside f sroot (s_reads s') in
+      let ok := outside_unchanged rel sb sa && N.eqb di0 di1 && negb (N.eqb di0 0) && N.leb err 1 && rd in
+      verdict model impl ok (SL [SN (if outside_unchanged rel sb sa then 0 else 1); SN di0; SN di1; SN err; SN (if rd then 0 else 1)])
     | _, _, _, _ => v_malformed
     end
   | _, _ => v_malformed
+  end.
+
+(* ---- kind 1405: the real Copy under strace: the flavours of its metadata calls ----
+   impl = (output-of-1404 ((call nofollow path) ...)).  A call of the wrong flavour is a specification failure; otherwise the verdict
+   is that of kind 1404 on the same run.  chown / utimes / setxattr calls must be no-follow, a following chmod must name
+   something that is not a symlink at the time of the call (theorem metadata_calls_nofollow). *)
+Definition s_chmod : bytes := [99; 104; 109; 111; 100].
+(* (call nofollow path) for chown / utimes / setxattr; (chmod nofollow path onlink) *)
+Definition ev_ok (e : sx) : bool :=
+  match e with
+  | SL [SB kind; b; SB path] =>
+    negb (bytes_eqb kind s_chmod) && match sx_bool b with Some true => true | _ => false end
+  | SL [SB kind; b; SB path; l] =>
+    bytes_eqb kind s_chmod &&
+    match sx_bool b, sx_bool l with
+    | Some true, Some _ => true
+    | Some false, Some false => true
+    | _, _ => false
+    end
+  | _ => false
+  end.
+Definition run_1405 (input impl : sx) : sx :=
+  match impl with
+  | SL [SL [r0; sb; ms; err; SL sa; di; pt]; SL evs] =>
+    let o4 := SL [r0; sb; ms; err; SL sa; di; pt] in
+    if forallb ev_ok evs then run_1404 input o4
+    else verdict impl impl false (SL (filter (fun e => negb (ev_ok e)) evs))
+  | _ => v_malformed
   end.
